@@ -52,6 +52,14 @@ CLAIMED = {
             'floats as reals (binary64 constants folded as in the code; wallet identity within 1e-9 relative); 2-3 symbolic candles; '
             'market entry with/without stop, two-point averaged entry',
             TECH),
+    'C10': ('DESIGN.md C10',
+            'Bounded solver-based check: the real Strategy/Broker/Sandbox inside research.backtest on symbolic candles with declared '
+            'prices symbolic around the 0.015% boundary; per recorded order z3 proves declared (qty, price), the routing rule '
+            '(MARKET iff near, LIMIT/STOP by side), reduce-only closing-side exits; per strategy step an injective map from active SL/TP '
+            'orders to the latest declaration, nothing active after close, entries cancelled iff should_cancel_entry().',
+            'floats as reals (threshold is the exact double 0.00015, written like is_price_near); templates T1-T6; valid-side exits assumed; '
+            '2-3 symbolic candles',
+            TECH),
 }
 
 NOT_YET = {}
